@@ -18,7 +18,8 @@ pub fn par_map<R: Send, F: Fn(usize) -> R + Sync>(n: usize, f: F) -> Vec<R> {
     std::thread::scope(|s| {
         let mut hs = Vec::new();
         for _ in 0..nt {
-            hs.push(s.spawn(|| {
+            // generous stacks: the subject recurses over the parse tree
+            hs.push(std::thread::Builder::new().stack_size(64 << 20).spawn_scoped(s, || {
                 let mut out = Vec::new();
                 loop {
                     let start = next.fetch_add(chunk, Ordering::Relaxed);
@@ -30,7 +31,7 @@ pub fn par_map<R: Send, F: Fn(usize) -> R + Sync>(n: usize, f: F) -> Vec<R> {
                     }
                 }
                 out
-            }));
+            }).expect("cannot spawn worker thread"));
         }
         for h in hs {
             parts.push(h.join().expect("worker thread panicked"));
